@@ -68,23 +68,27 @@ Fixpoint decode_resps (l : list json) : option (list resp) :=
   | j :: t => match decode_resp j, decode_resps t with Some r, Some rs => Some (r :: rs) | _, _ => None end
   end.
 
-Inductive qerr := EFetch | ECount | EServiceErrors (es : list json) | ENoData.
+Inductive qerr := EFetch | ECount | EServiceErrors (es : list json).
 Inductive qres := QErr (e : qerr) | QOk (datas : list (list (string * json))) | QPanic.
 
-(* the loop `for i, resp := range resps { ...; results[toFetchIndexes[i]] = resp.Data }` with n result slots;
-   here toFetchIndexes = 0..n-1 (no upload in the batch) *)
-Fixpoint place (n : nat) (i : nat) (rs : list resp) (results : list (option (list (string * json)))) : qres + list (option (list (string * json))) :=
+(* the synthetic error for an element that carries neither data nor errors (fix 8df4d50 / 10b468e) *)
+Definition nodata_error : json := JObj [("message", JStr "response contains neither data nor errors")].
+
+(* the loop `for i, resp := range resps { ... results[toFetchIndexes[i]] = resp.Data }` with n result slots
+   (toFetchIndexes = 0..n-1: no upload in the batch); errors of ALL elements are collected (fix 10b468e) *)
+Fixpoint place (n : nat) (i : nat) (rs : list resp) (results : list (option (list (string * json)))) (errs : list json)
+  : option (list (option (list (string * json))) * list json) :=   (* None = index out of range *)
   match rs with
-  | [] => inr results
+  | [] => Some (results, errs)
   | r :: t =>
       match r_errors r with
-      | _ :: _ => inl (QErr (EServiceErrors (r_errors r)))
+      | _ :: _ => place n (S i) t results (errs ++ r_errors r)
       | [] =>
           match r_data r with
-          | None => inl (QErr ENoData)                         (* fix 8df4d50 *)
+          | None => place n (S i) t results (errs ++ [nodata_error])
           | Some d =>
-              if Nat.ltb i n then place n (S i) t (list_set i (Some d) results)
-              else inl QPanic                                  (* results[toFetchIndexes[i]]: index out of range *)
+              if Nat.ltb i n then place n (S i) t (list_set i (Some d) results) errs
+              else None                                        (* results[toFetchIndexes[i]]: index out of range *)
           end
       end
   end.
@@ -108,12 +112,17 @@ Definition query_batch (n : nat) (a : answer) : qres :=
       | None => QErr EFetch
       | Some rs =>
           if negb (Nat.eqb (List.length rs) n) then QErr ECount  (* fix 8df4d50 *)
-          else match place n 0 rs (repeat None n) with
-               | inl q => q
-               | inr results => match all_some results with Some ds => QOk ds | None => QPanic (* a nil result would be handed on *) end
+          else match place n 0 rs (repeat None n) [] with
+               | None => QPanic
+               | Some (results, []) => match all_some results with Some ds => QOk ds | None => QPanic (* a nil result would be handed on *) end
+               | Some (_, es) => QErr (EServiceErrors es)
                end
       end
   end.
+
+(* what one response element contributes to the error list *)
+Definition resp_errors (r : resp) : list json :=
+  match r_errors r with _ :: _ => r_errors r | [] => match r_data r with None => [nodata_error] | Some _ => [] end end.
 
 (* ---- the executor's view of one answered sub-request (parseRespones) ---- *)
 Inductive pres := PRErr | PROk (obj : list (string * json)).
